@@ -70,3 +70,39 @@ for _nm, _c in (
         ('orderval_pyx', SinglePass(DIRPYX, 'spike_train_order_cython', 'order')),
         ('dirval_pyx', SinglePass(DIRPYX, 'spike_directionality_cython', 'directionality'))):
     kernel(_nm + '.B', _c, 'B', sizes_quick=sizes(0, 2), sizes_thorough=sizes(0, 3), bound_text=_BT)
+
+# ---- C09 / C11: add kernels
+from ..contracts.add import AddPwc, AddDiscrete, AddPwl  # noqa
+
+ADD = 'pyspike/cython/cython_add.pyx'
+kernel('addpwc_py.P', AddPwc(), 'P', finder=sizes(1, 3))
+kernel('addpwc_pyx.P', AddPwc(ADD, 'add_piece_wise_const_cython'), 'P', finder=sizes(1, 3))
+_BA = 'pieces / events per operand <= 3 (quick) / <= 4 (thorough); all real breakpoints and values'
+kernel('addpwc_py.B', AddPwc(), 'B', sizes_quick=sizes(1, 3), sizes_thorough=sizes(1, 4), bound_text=_BA)
+kernel('addpwc_pyx.B', AddPwc(ADD, 'add_piece_wise_const_cython'), 'B', sizes_quick=sizes(1, 3), sizes_thorough=sizes(1, 4), bound_text=_BA)
+kernel('adddisc_py.B', AddDiscrete(), 'B', sizes_quick=sizes(0, 3), sizes_thorough=sizes(0, 4), bound_text=_BA)
+kernel('adddisc_pyx.B', AddDiscrete(ADD, 'add_discrete_function_cython'), 'B', sizes_quick=sizes(0, 3), sizes_thorough=sizes(0, 4), bound_text=_BA)
+kernel('addpwl_py.B', AddPwl(), 'B', sizes_quick=sizes(1, 3), sizes_thorough=sizes(1, 4), bound_text=_BA)
+kernel('addpwl_pyx.B', AddPwl(ADD, 'add_piece_wise_lin_cython'), 'B', sizes_quick=sizes(1, 3), sizes_thorough=sizes(1, 4), bound_text=_BA)
+
+# ---- C10 / C11: function classes (methods)
+from ..contracts import funcs as F  # noqa
+
+_BF = 'number of pieces / events <= 3 (quick) / <= 4 (thorough); all real breakpoints, values, interval ends and times'
+
+
+def _fsizes(hi, variants, lo=1):
+    return [(n, v) for n in range(lo, hi + 1) for v in variants]
+
+
+for _k, _I, _E, _P in (('pwc', F.PwcIntegral, F.PwcEval, F.PwcPlot), ('pwl', F.PwlIntegral, F.PwlEval, F.PwlPlot)):
+    kernel('%s_integral.B' % _k, _I('integral'), 'B', sizes_quick=_fsizes(3, ['none', 'one']), sizes_thorough=_fsizes(4, ['none', 'one']), bound_text=_BF)
+    kernel('%s_avrg.B' % _k, _I('avrg'), 'B', sizes_quick=_fsizes(3, ['none', 'one']) + _fsizes(2, ['list2']),
+           sizes_thorough=_fsizes(4, ['none', 'one']) + _fsizes(3, ['list2']), bound_text=_BF)
+    kernel('%s_call.B' % _k, _E(), 'B', sizes_quick=[(n,) for n in (1, 2, 3)], sizes_thorough=[(n,) for n in (1, 2, 3, 4)], bound_text=_BF)
+    kernel('%s_plot.B' % _k, _P(), 'B', sizes_quick=[(n,) for n in (1, 2, 3)], sizes_thorough=[(n,) for n in (1, 2, 3, 4)], bound_text=_BF)
+kernel('disc_integral.B', F.DiscIntegral('integral'), 'B', sizes_quick=_fsizes(3, ['none', 'one'], 0) + _fsizes(2, ['list2'], 0),
+       sizes_thorough=_fsizes(4, ['none', 'one'], 0) + _fsizes(3, ['list2'], 0), bound_text=_BF)
+kernel('disc_avrg.B', F.DiscIntegral('avrg'), 'B', sizes_quick=_fsizes(3, ['none', 'one'], 0) + _fsizes(2, ['list2'], 0),
+       sizes_thorough=_fsizes(4, ['none', 'one'], 0) + _fsizes(3, ['list2'], 0), bound_text=_BF)
+kernel('disc_plot.B', F.DiscPlot(), 'B', sizes_quick=[(n,) for n in (0, 1, 2, 3)], sizes_thorough=[(n,) for n in (0, 1, 2, 3, 4)], bound_text=_BF)
